@@ -1,9 +1,152 @@
-"""C18 - contracts under construction; the bounded stand-in is wired so that seeded changes can be evaluated."""
+"""C18 - generated decoys preserve length, composition and cleavage structure (DESIGN.md 4.C18)."""
 from pyvc.spec import Contract, Loop, Lemma, Ghost
 
 PROPERTY = "C18"
 LEVEL = "other"
-EXPLANATION = "bounded stand-in only so far"
-ASSUMPTIONS = []
-CONTRACTS = []
+EXPLANATION = (
+    "Deductive: _shuffle_proteins over character sequences - for every protein the decoy is named prefix + name, "
+    "has the same length, keeps the first and last residue of every enzymatic peptide in place, is a re-arrangement "
+    "of the target along an INJECTIVE position map that never leaves a peptide (hence the same residue "
+    "composition), and with the reversal option the interior of every peptide is exactly reversed; the cache of "
+    "permutations per length only ever holds injective maps of range(L).  Bounded stand-in: make_decoys + "
+    "re-reading on generated FASTA files (empty sequences, no cleavage site, multi-line records, long sequences, "
+    "several files, both modes, several RNG states).")
+ASSUMPTIONS = [
+    "a string and its character list are the same value (list(s), ''.join(chars)); characters are abstract",
+    "np.random.permutation(arange(n)) returns a permutation of range(n) (global RNG); np.flip reverses",
+    "_cleavage_sites through its verified contract (0 first, len(sequence) last, in range, sorted); which positions "
+    "are sites is the regex engine's business (bounded)",
+    "'same composition' is stated as: decoy[p] == target[pi[p]] for an injective pi that maps every peptide into "
+    "itself (a bijection by finiteness - the pigeonhole step is not mechanised)",
+    "the FASTA writer / reader (text wrapping, parsing) are covered by the bounded run only",
+]
+
+_N = "len(seq)"
+_UT = "(sites[start_idx] if start_idx < len(sites) else len(seq))"
+
+# the cache holds, for every length L, a map of range(L) into itself with a LEFT INVERSE (hence injective)
+_PERMS_OK = ("forall(lambda L: implies(L in perms, len(perms[L]) == L and len(ghost_iperms[L]) == L and "
+             "all(0 <= perms[L][j] < L and ghost_iperms[L][perms[L][j]] == j for j in range(L))), "
+             "trigger=lambda L: perms[L])")
+
+
+def per_protein(tgt, dec, S, upto):
+    return [
+        # first and last residue of every enzymatic peptide stay in place
+        "all(implies(i + 1 < len({S}) and {S}[i] < {S}[i + 1], {dec}[{S}[i]] == {tgt}[{S}[i]] and "
+        "{dec}[{S}[i + 1] - 1] == {tgt}[{S}[i + 1] - 1]) for i in range({upto}))".format(S=S, dec=dec, tgt=tgt, upto=upto),
+    ]
+
+
+def composition(tgt, dec, pi, ip):
+    return [
+        "len({pi}) == len({tgt}) and len({ip}) == len({tgt})".format(pi=pi, ip=ip, tgt=tgt),
+        # the decoy is the target read along the position map pi, and pi has a left inverse (so it is injective:
+        # no residue is used twice - the same composition)
+        "all(0 <= {pi}[p] < len({tgt}) and {dec}[p] == {tgt}[{pi}[p]] and {ip}[{pi}[p]] == p "
+        "for p in range(len({tgt})))".format(pi=pi, ip=ip, tgt=tgt, dec=dec),
+    ]
+
+
+_SITES_FACTS = lambda S, n: [
+    "len(%s) >= 2 and %s[0] == 0 and %s[len(%s) - 1] == %s" % (S, S, S, S, n),
+    "all(0 <= %s[k] <= %s for k in range(len(%s)))" % (S, n, S),
+    "forall(lambda a, b: implies(0 <= a <= b < len(%s), %s[a] <= %s[b]), trigger=lambda a, b: marked('ord', a, b))"
+    % (S, S, S),
+]
+
+
+def outer(upto, decoys="decoys"):
+    tgt, dec, S, pi, ip = "proteins[m][1]", "%s[m][1]" % decoys, "ghost_sites[m]", "ghost_pis[m]", "ghost_ips[m]"
+    cl = ["%s[m][0] == decoy_prefix + proteins[m][0]" % decoys,
+          "len(%s) == len(%s)" % (dec, tgt)]
+    cl += per_protein(tgt, dec, S, "len(%s)" % S)
+    cl += composition(tgt, dec, pi, ip)
+    cl += ["len(%s) >= 2 and %s[0] == 0 and %s[len(%s) - 1] == len(%s)" % (S, S, S, S, tgt)]
+    return ["all(%s for m in range(%s))" % (c, upto) for c in cl]
+
+
+shuffle = Contract(
+    target="mokapot.parsers.fasta._shuffle_proteins",
+    params={"proteins": "list[tuple[str,list[Char]]]", "decoy_prefix": "str", "enzyme": "Regex", "reverse": "bool"},
+    returns="list[tuple[str,list[Char]]]",
+    locals={"decoys": "list[tuple[str,list[Char]]]", "perms": "dict[int,nd[int]]", "new_seq": "list[Char]",
+            "ghost_sites": "list[list[int]]", "ghost_pis": "list[list[int]]", "ghost_ips": "list[list[int]]",
+            "ghost_pi": "list[int]", "ghost_ip": "list[int]", "ghost_iperms": "map[int,list[int]]",
+            "ghost_pinv": "list[int]", "perm": "nd[int]", "base": "nd[int]"},
+    entry_ghost=["ghost ghost_ll0: list[list[int]]", "ghost ghost_iperms: map[int,list[int]]"],
+    ghost_at=[
+        {"before": "decoys = []", "do": ["let ghost_sites = ghost_ll0[0:0]", "let ghost_pis = ghost_ll0[0:0]",
+                                         "let ghost_ips = ghost_ll0[0:0]"]},
+        {"after": "new_seq = list(seq)", "do": ["defseq ghost_pi[p : len(seq)] = p", "defseq ghost_ip[p : len(seq)] = p"]},
+        {"before": "start = cleavage_site + 1", "do": ["mark ord(start_idx, end_idx)",
+                                                       "assert sites[start_idx] <= sites[end_idx]"]},
+        # the cached permutation and its (ghost) left inverse
+        {"after": "perms[pep_len] = np.flip(", "do": ["set ghost_iperms[pep_len] = perms[pep_len]"]},
+        {"after": "perm = base", "do": ["defseq ghost_pinv[q : pep_len] = q"]},
+        {"after": "perm = np.random.permutation(base)", "do": ["defseq ghost_pinv[q : pep_len] = inv(perm, q)"]},
+        {"after": "perms[pep_len] = perm", "do": ["set ghost_iperms[pep_len] = ghost_pinv"]},
+        {"before": "new_seq[start:end] = [new_seq[i + start] for i in perms[pep_len]]", "do": [
+            "assert 0 <= start and start + pep_len == end and end <= len(seq)",
+            "assert pep_len in perms and len(perms[pep_len]) == pep_len",
+            "defseq ghost_pi[p : len(seq)] = (start + perms[pep_len][p - start]) if start <= p < end else ghost_pi[p]",
+            "defseq ghost_ip[q : len(seq)] = (start + ghost_iperms[pep_len][q - start]) if start <= q < end "
+            "else ghost_ip[q]",
+        ]},
+        {"after": "new_seq[start:end] = [new_seq[i + start] for i in perms[pep_len]]", "do": [
+            # stepping stones for the re-arranged interior
+            "assert all(0 <= perms[pep_len][p - start] < pep_len for p in range(start, end))",
+            "assert all(new_seq[p] == seq[start + perms[pep_len][p - start]] for p in range(start, end))",
+            "assert all(ghost_pi[p] == start + perms[pep_len][p - start] for p in range(start, end))",
+            "assert all(ghost_ip[ghost_pi[p]] == p for p in range(start, end))",
+        ]},
+        {"before": "decoys.append([decoy_prot,", "do": [
+            "let ghost_sites = ghost_sites + [sites]", "let ghost_pis = ghost_pis + [ghost_pi]",
+            "let ghost_ips = ghost_ips + [ghost_ip]"]},
+    ],
+    exit_ghost=["let gsites = ghost_sites", "let gpis = ghost_pis"],
+    ensures=["len(result) == len(proteins)", "len(ghost_sites) == len(proteins)", "len(ghost_pis) == len(proteins)"]
+    + outer("len(proteins)", "result"),
+    loops={
+        0: Loop(invariant=["len(decoys) == _k0", "len(ghost_sites) == _k0", "len(ghost_pis) == _k0",
+                           "len(ghost_ips) == _k0", _PERMS_OK] + outer("_k0")),
+        1: Loop(ghost_pre=["mark ord(start_idx, start_idx + 1)", "mark ord(0, start_idx)",
+                           "mark ord(start_idx + 1, len(sites) - 1)"],
+                invariant=[
+            "len(new_seq) == len(seq)", _PERMS_OK,
+            "all(new_seq[p] == seq[p] for p in range(%s, len(seq)))" % _UT,
+            "all(ghost_pi[p] == p and ghost_ip[p] == p for p in range(%s, len(seq)))" % _UT,
+            "all(ghost_pi[p] < %s for p in range(%s))" % (_UT, _UT),
+            # the sites seen so far lie below the untouched region
+            "all(implies(i < len(sites), sites[i] <= %s) for i in range(start_idx + 1))" % _UT,
+        ] + per_protein("seq", "new_seq", "sites", "start_idx") + composition("seq", "new_seq", "ghost_pi", "ghost_ip")
+          ),   # (facts about `sites` persist: the loop does not assign it)
+        2: Loop(invariant=[
+            "len(perm) == pep_len", "len(base) == pep_len", "len(ghost_pinv) == pep_len",
+            "all(base[j] == j for j in range(pep_len))",
+            "all(0 <= perm[j] < pep_len and ghost_pinv[perm[j]] == j for j in range(pep_len))",
+        ]),
+    },
+    uses=["mokapot.parsers.fasta._cleavage_sites"],
+)
+
+CONTRACTS = [shuffle]
 BOUNDED = {"module": "harness.c18"}
+
+MUTANTS = [
+    {"name": "last-residue-shuffled-too", "target": "mokapot.parsers.fasta._shuffle_proteins",
+     "find": "            end = sites[end_idx] - 1", "replace": "            end = sites[end_idx]"},
+    {"name": "first-residue-shuffled-too", "target": "mokapot.parsers.fasta._shuffle_proteins",
+     "find": "            start = cleavage_site + 1", "replace": "            start = cleavage_site"},
+    {"name": "sample-with-repetition", "target": "mokapot.parsers.fasta._shuffle_proteins",
+     "find": "            new_seq[start:end] = [new_seq[i + start] for i in perms[pep_len]]",
+     "replace": "            new_seq[start:end] = [new_seq[start] for i in perms[pep_len]]"},
+    {"name": "prefix-as-suffix", "target": "mokapot.parsers.fasta._shuffle_proteins",
+     "find": "        decoy_prot = decoy_prefix + prot", "replace": "        decoy_prot = prot + decoy_prefix"},
+    {"name": "interior-read-from-wrong-offset", "target": "mokapot.parsers.fasta._shuffle_proteins",
+     "find": "            new_seq[start:end] = [new_seq[i + start] for i in perms[pep_len]]",
+     "replace": "            new_seq[start:end] = [new_seq[i + start - 1] for i in perms[pep_len]]"},
+    {"name": "cache-keyed-by-wrong-length", "target": "mokapot.parsers.fasta._shuffle_proteins",
+     "find": "                    perms[pep_len] = np.flip(np.arange(pep_len))",
+     "replace": "                    perms[pep_len] = np.flip(np.arange(pep_len + 1))"},
+]
